@@ -23,6 +23,12 @@ from .core import Program, is_self_attr, unparse, NOCONST, const_value
 ORD = {'lt': -1, 'eq': 0, 'gt': 1}
 
 
+def _query_call(x):
+    """calls that only read: accessor chains such as self.eventlist().peek_first()"""
+    return isinstance(x, ast.Call) and isinstance(x.func, ast.Attribute) and not x.keywords and \
+        x.func.attr in ('eventlist', 'peek_first', 'is_empty', 'size', 'simulator_time', 'time')
+
+
 class Canon(ast.NodeTransformer):
     """inline simple properties / zero-arg helper predicates on self"""
 
@@ -48,7 +54,12 @@ class Canon(ast.NodeTransformer):
 
     def visit_Name(self, node):
         if node.id in self.subst:
-            return copy.deepcopy(self.subst[node.id])
+            v = copy.deepcopy(self.subst[node.id])
+            if self.depth > 0:
+                # the substituted value is canonicalised as well (it may itself use accessors / other single-assignment locals)
+                rest = {k: x for k, x in self.subst.items() if k != node.id}
+                return Canon(self.prog, self.cls, self.depth - 1, subst=rest, receivers=self.receivers).visit(v)
+            return v
         return node
 
     def _ctor_field(self, node):
@@ -104,6 +115,27 @@ class Canon(ast.NodeTransformer):
                 r = self.prog.predicate_expr(self.cls, f.attr)      # `if A: return True; return B` is the predicate `A or B`
             if r is not None:
                 return self._inline(r, recv)
+        if self.cls and recv and node.args and not node.keywords and self.depth > 0 and not self.prog.is_prop(self.cls, f.attr):
+            # a predicate with parameters: `self.p(a, b)` is p's returned expression with the (side-effect free) arguments in place of the parameters
+            ci, fn = self.prog.resolve(self.cls, f.attr)
+            if fn is not None and not fn.args.vararg and not fn.args.kwarg and not fn.args.kwonlyargs and len(fn.args.args) == len(node.args) + 1 \
+                    and not any(isinstance(a, ast.Starred) for a in node.args) \
+                    and not any(isinstance(x, (ast.Call, ast.NamedExpr, ast.Await, ast.Yield, ast.Lambda)) and not _query_call(x) for a in node.args for x in ast.walk(a)):
+                r = self.prog.simple_return(self.cls, f.attr) or self.prog.predicate_expr(self.cls, f.attr)
+                params = [a.arg for a in fn.args.args[1:]]
+                stored = {x.id for x in ast.walk(fn) if isinstance(x, ast.Name) and isinstance(x.ctx, ast.Store)}
+                if r is not None and not (stored & set(params)):
+                    m = dict(zip(params, node.args))
+                    e = copy.deepcopy(r)
+
+                    class S(ast.NodeTransformer):
+                        def visit_Name(self, n):
+                            return copy.deepcopy(m[n.id]) if n.id in m and isinstance(n.ctx, ast.Load) else n
+
+                        def visit_Lambda(self, n):
+                            return n
+                    e = S().visit(e)
+                    return self._inline(e, recv)
         return node
 
 
